@@ -351,9 +351,44 @@ pub fn run(ctx: &Ctx) {
     });
     ctx.part_done("lookalike-characters", true, json!({"sequences": LOOKALIKES.len(), "what": "each multi-byte look-alike (Unicode digits, fullwidth hex letters/colon, Unicode spaces) replacing / inserted at every position of 3 valid frames, singly and doubled"}));
 
+    // (i-e) the heaviest frames: 250..=255 data bytes of 0xFF / 0xFE with high address and type bytes (field sums near
+    // and beyond 65536), valid, with the checksum off by one, and with the length field off by one
+    par_range(ctx, "heaviest-frames", 6, |k, st| {
+        let n = 250 + k as usize;
+        for fill in [0xFFu8, 0xFE, 0x80] {
+            for (addr, ty) in [(0xFFFFu16, 0xFFu8), (0xFF00, 0xFF), (0x0001, 0x00), (0x00FF, 0x01), (0xFFFF, 0x00)] {
+                let mut fields: Vec<u8> = vec![n as u8, (addr >> 8) as u8, addr as u8, ty];
+                fields.extend(std::iter::repeat(fill).take(n));
+                let sum = fields.iter().fold(0u8, |a, &b| a.wrapping_add(b));
+                for (dl, dc) in [(0u8, 0u8), (0, 1), (1, 0), (0, 0xFF)] {
+                    let mut f = fields.clone();
+                    f[0] = f[0].wrapping_add(dl);
+                    f.push(0u8.wrapping_sub(sum).wrapping_add(dc));
+                    let mut text = vec![b':'];
+                    for b in &f {
+                        text.extend_from_slice(format!("{b:02X}").as_bytes());
+                    }
+                    for crlf in [false, true] {
+                        let mut t = text.clone();
+                        if crlf {
+                            t.extend_from_slice(b"\r\n");
+                        }
+                        check_bytes(&t, st, false).map_err(|m| (json!({"bytes": t}), m))?;
+                    }
+                }
+            }
+        }
+        Ok(())
+    });
+    ctx.part_done("heaviest-frames", true, json!("250..=255 data bytes of FF/FE/80 x 5 address/type pairs x {valid, checksum +1, checksum -1, length +1} x {plain, CRLF}"));
+
     // (ii) grammar based ------------------------------------------------------------------
     run_generated(ctx, "grammar", ctx.tier.pick(1_000_000, 20_000_000), grammar_strategy, |c, st| {
         st.class("grammar-cases");
+        // a Frame::write that failed on this thread just before must not influence the decoder
+        let mut sink = crate::io::port::TestPort::new(vec![]);
+        sink.st.borrow_mut().write_script = vec![crate::io::port::WriteStep::Accept(5), crate::io::port::WriteStep::Error(std::io::ErrorKind::BrokenPipe)];
+        let _ = flipdot_core::Frame::new(flipdot_core::Address(0x1234), flipdot_core::MsgType(9), flipdot_core::Data::try_new(vec![1u8, 2, 3]).unwrap()).write(&mut sink);
         check_bytes(&c.bytes, st, true)
     });
     // generator health: each class the check relies on must be well represented
